@@ -17,7 +17,7 @@ import (
 
 var renderPaths = []string{"WriteTo", "Write", "NewReader", "UpdateReader", "WriteToFile", "WriteToTempFile", "fail"}
 
-func renderVia(m *mail.Msg, path string, failAt int) (out []byte, err error, line string) {
+func renderVia(m *mail.Msg, path string, failAt int, shared **mail.Reader) (out []byte, err error, line string) {
 	switch path {
 	case "fail":
 		r := renderOnce(m, failAt)
@@ -46,14 +46,22 @@ func renderVia(m *mail.Msg, path string, failAt int) (out []byte, err error, lin
 			out = b.Bytes()
 		case "NewReader":
 			rd := m.NewReader()
+			*shared = rd
 			out, err = io.ReadAll(rd)
 			if err == nil {
 				err = rd.Error()
 			}
 		case "UpdateReader":
-			rd := &mail.Reader{}
+			// ONE Reader per message is kept and refreshed, as an application holding on to its Reader does
+			if *shared == nil {
+				*shared = &mail.Reader{}
+			}
+			rd := *shared
 			m.UpdateReader(rd)
 			out, err = io.ReadAll(rd)
+			if err == nil {
+				err = rd.Error()
+			}
 		case "WriteToFile":
 			f, e := os.CreateTemp("", "gmverif-out-*.eml")
 			if e != nil {
@@ -159,6 +167,8 @@ func init() {
 				hlen := 2 + r.Intn(4)
 				var history []string
 				var first []byte
+				var shared *mail.Reader
+				flakyViaReader := flaky && r.Chance(50)
 				for h := 0; h < hlen; h++ {
 					path := renderPaths[r.Intn(len(renderPaths))]
 					if h == 0 && path == "fail" && r.Chance(50) {
@@ -166,6 +176,9 @@ func init() {
 					}
 					if flaky && h == 0 {
 						path = "WriteTo"
+						if flakyViaReader {
+							path = "NewReader" // the render that fails goes into a Reader the application keeps
+						}
 					}
 					failAt := 0
 					if path == "fail" {
@@ -177,13 +190,15 @@ func init() {
 						}
 					}
 					history = append(history, path)
-					out, err, line := renderVia(m, path, failAt)
+					out, err, line := renderVia(m, path, failAt, &shared)
 					c.rep.OracleChecked++
 					in := map[string]interface{}{"spec": spc, "history": history, "fail_at": failAt}
 					if flaky && h == 0 {
 						// the render during which the sources fail
-						ops = append(ops, line)
-						wants = append(wants, encB(out)+" "+encN(len(out))+" "+encBool(err != nil))
+						if !flakyViaReader {
+							ops = append(ops, line)
+							wants = append(wants, encB(out)+" "+encN(len(out))+" "+encBool(err != nil))
+						}
 						if err == nil {
 							c.Violate("c12-silent-success", "a source failed while rendering but WriteTo returned no error", in)
 						}
